@@ -227,8 +227,21 @@ def dict_get(d, k):
     return DGET(d, k)
 
 
+_DSET_ORIGIN = {}      # id of a dict_set result -> (result term, d, k): lets a second store to the same key collapse
+
+
 def dict_set(d, k, v):
     """d[k] = v : overwrite in place when present, append otherwise"""
+    o = _DSET_ORIGIN.get(d.get_id())
+    if o is not None and o[0].eq(d) and o[2].eq(k):
+        # (d0[k] = x; d0[k] = v) is d0[k] = v: the key keeps the position the first store gave it
+        return dict_set(o[1], k, v)
+    r = _dict_set(d, k, v)
+    _DSET_ORIGIN[r.get_id()] = (r, d, k)
+    return r
+
+
+def _dict_set(d, k, v):
     ks, vs = dkeys(d), dvals(d)
     idx = dict_index(d, k)
     n = z3.Length(vs)
